@@ -341,7 +341,11 @@ class LinearAlgebraMethods(object):
             s = ctx.fsum(abs(A[i,j])**2 for i in xrange(j, m))
             if not abs(s) > ctx.eps:
                 raise ValueError('matrix is numerically singular')
-            p.append(-ctx.sign(ctx.re(A[j,j])) * ctx.sqrt(s))
+            sgn = ctx.sign(ctx.re(A[j,j]))
+            if not sgn:
+                # a pivot with zero real part: either sign gives a valid reflector
+                sgn = ctx.one
+            p.append(-sgn * ctx.sqrt(s))
             kappa = ctx.one / (s - p[j] * A[j,j])
             A[j,j] -= p[j]
             for k in xrange(j+1, n):
